@@ -20,9 +20,9 @@ from . import masks, series
 from .series import Unsupported, Inconclusive, INF
 
 SHAPE_METHODS = masks.WRAP_METHODS
-FN_METHODS = {'sin', 'cos', 'exp', 'atan', 'tan', 'sinh', 'cosh', 'tanh'}
+FN_METHODS = {'sin', 'cos', 'exp', 'atan', 'tan', 'sinh', 'cosh', 'tanh', 'log', 'arctan'}
 FN_FUNCS = {'torch.sin', 'torch.cos', 'torch.exp', 'torch.atan', 'torch.tan', 'torch.arctan', 'math.sin', 'math.cos', 'math.exp', 'math.atan',
-            'torch.sinh', 'torch.cosh', 'torch.tanh'}
+            'torch.sinh', 'torch.cosh', 'torch.tanh', 'torch.log', 'math.log', 'math.tan', 'math.atan'}
 PASS_FUNCS = {'torch.nan_to_num', 'torch.as_tensor', 'torch.tensor', 'torch.clone', 'float'}
 ABS_LIKE = {'abs', 'torch.abs'}
 
@@ -71,6 +71,8 @@ def atom_table(mask_exprs):
 
 
 class Evaluator:
+    matmul_commutes = False           # set by rules whose operands are powers of ONE matrix (polynomials in a single matrix commute)
+
     def __init__(self, ring, varmap, regime):
         self.ring, self.varmap, self.regime = ring, varmap, regime
 
@@ -107,6 +109,8 @@ class Evaluator:
                 return R.mul(a, b)
             if isinstance(e.op, ast.Div):
                 return R.mul(a, R.inv(b))
+            if isinstance(e.op, ast.MatMult) and self.matmul_commutes:
+                return R.mul(a, b)
             raise Unsupported('operator %s' % type(e.op).__name__)
         if isinstance(e, ast.Call):
             d = dotted(e.func) or ''
@@ -129,13 +133,17 @@ class Evaluator:
                 return R.zero()
             if d in ('torch.ones_like', 'torch.ones'):
                 return R.one()
+            if d == 'torch.eye' and self.matmul_commutes:
+                return R.one()
+            if d in ('torch.linalg.matrix_power', 'torch.matrix_power') and self.matmul_commutes and len(e.args) == 2 and isinstance(e.args[1], ast.Constant):
+                return R.powi(self.ev(e.args[0]), int(e.args[1].value))
             if d in ('torch.mul', 'torch.div', 'torch.add', 'torch.sub') and len(e.args) == 2:
                 op = {'mul': ast.Mult, 'div': ast.Div, 'add': ast.Add, 'sub': ast.Sub}[d.split('.')[1]]()
                 return self.ev(ast.BinOp(e.args[0], op, e.args[1]))
             if isinstance(e.func, ast.Attribute) and not d.startswith(('torch.', 'math.')):
                 m, recv = e.func.attr, e.func.value
                 if m in FN_METHODS and not e.args:
-                    return R.fn(m, self.ev(recv))
+                    return R.fn(m.replace('arctan', 'atan'), self.ev(recv))
                 if m == 'sqrt' and not e.args:
                     return R.sqrt(self.ev(recv))
                 if m == 'square' and not e.args:
@@ -296,3 +304,58 @@ def _fixture(rid):
     div = series.compare(ring, ev('1.0/6'), ev('(t - t.sin()) / t**4'), [('limit', 0)])
     if good is not None or bad is None or div is None:
         raise AnalysisError('%s: series fixture no longer classified (%r, %r, %r)' % (rid, good, bad, div))
+
+
+@guarded
+def rule_bernoulli(repo, rid, module, pairs):
+    """pairs: [(Jl function, Jl_inv function, adjoint helper)].  The truncated series of the left Jacobian and of its inverse are polynomials in ONE
+    matrix, the adjoint ad(xi): J_l = sum ad^n / (n+1)!  and  J_l^-1 = sum B_n ad^n / n!  (Bernoulli numbers).  Powers of one matrix commute, so both
+    are decided as scalar series in t = ad: the code polynomial must agree with (e^t - 1)/t resp. t/(e^t - 1) up to its own degree, and the product of
+    the two must be 1 up to the smaller degree."""
+    res = RuleResult(rid, 'the series of sim3_Jl is sum ad^n/(n+1)! = (e^t - 1)/t and that of sim3_Jl_inv is sum B_n ad^n/n! = t/(e^t - 1), coefficient by '
+                     'coefficient up to the degree written in the code; their product is the identity up to the smaller degree', floor=2)
+    ring, gens, _ = series.tower(['t'])
+    t = gens['t']
+    et1 = ring.sub(ring.fn('exp', t), ring.one())
+    gen = {'Jl': ring.mul(et1, ring.inv(t)), 'Jl_inv': ring.mul(t, ring.inv(et1))}
+    for jl, jli, adj in pairs:
+        polys = {}
+        for kind, q in (('Jl', jl), ('Jl_inv', jli)):
+            f = repo.func(module, q)
+            from .expr import inline_straight, returns_of
+            rets = returns_of(f.node)
+            if len(rets) != 1:
+                raise AnalysisError('%s: %s has %d returns' % (rid, q, len(rets)))
+            v = inline_straight(f.node, upto=rets[0]).value(rets[0].value)
+            vm = {}
+            for n in ast.walk(v):
+                if isinstance(n, ast.Call) and dotted(n.func) == adj:
+                    vm[dump(n)] = t
+            if not vm:
+                raise AnalysisError('%s: %s no longer builds its series from %s' % (rid, q, adj))
+            ev = Evaluator(ring, vm, ('atom', ('none',)))
+            ev.matmul_commutes = True
+            try:
+                P = ev.ev(v)
+            except (Unsupported, Inconclusive) as ex:
+                res.inst({'function': f.fq, 'decided': False, 'reason': str(ex)}, f.fq)
+                continue
+            if P.prec < INF:
+                res.inst({'function': f.fq, 'decided': False, 'reason': 'not a polynomial in the adjoint'}, f.fq)
+                continue
+            deg = max(list(P.c) + [0])
+            diff = series.compare(ring, P, gen[kind], [('limit', deg)])
+            polys[kind] = (P, deg)
+            res.inst({'function': f.fq, 'series': ring.show(P, 8), 'degree': deg, 'matches': '(e^t - 1)/t' if kind == 'Jl' else 't/(e^t - 1)', 'agree': diff is None}, f.fq)
+            if diff is not None:
+                res.add(Finding(rid, f, '%s: the series %s is not the truncation of %s (t = the adjoint matrix): %s' % (q, ring.show(P, 8), 'sum t^n/(n+1)!' if kind == 'Jl' else
+                                'sum B_n t^n/n! (Bernoulli)', diff.replace('branch', 'code').replace('reference', 'exact')), node=rets[0], construct='series of ' + q))
+        if len(polys) == 2:
+            d = min(polys['Jl'][1], polys['Jl_inv'][1])
+            prod = ring.mul(polys['Jl'][0], polys['Jl_inv'][0])
+            pd = series.compare(ring, series.S({e: c for e, c in prod.c.items()}, INF), ring.one(), [('limit', d)])
+            res.inst({'pair': '%s * %s' % (jl, jli), 'identity up to degree': d, 'ok': pd is None}, (jl, jli))
+            if pd is not None and not res.findings:
+                res.add(Finding(rid, repo.func(module, jli), 'the product of the series of %s and %s is not the identity up to degree %d: %s' % (jl, jli, d, pd),
+                                construct='product of the two series'))
+    return res
